@@ -45,6 +45,9 @@ func parseData(ps []*Packet, prs PacketsParser, pm *programMap) (ds []*DemuxerDa
 		} else if skip {
 			return
 		}
+
+		// The custom parser leaves the packets to the default parsing: the data it may have returned are not part of the output
+		ds = nil
 	}
 
 	// Get payload length
